@@ -11,9 +11,13 @@ import (
 	"encoding/hex"
 	"fmt"
 	"io"
+	"net/http"
 	"net/url"
 	"strings"
 	"time"
+
+	pkgcookies "github.com/oauth2-proxy/oauth2-proxy/v7/pkg/cookies"
+	"github.com/oauth2-proxy/oauth2-proxy/v7/pkg/encryption"
 )
 
 type startedLogin struct {
@@ -249,6 +253,7 @@ func init() {
 						variant{"other-login-renamed", sl.name + "=" + strings.SplitN(other.cookie, "=", 2)[1], false, false})
 				}
 				for _, vr := range variants {
+					e.csrfPickTie(c, vr.cookie, sl.name)
 					target, g := e.callbackFor(sl, u, nil)
 					if g == nil {
 						continue
@@ -710,4 +715,57 @@ func failRandAt(at int) func() {
 	old := rand.Reader
 	rand.Reader = &failingReader{inner: old, at: at}
 	return func() { rand.Reader = old }
+}
+
+// csrfPickTie: LoadCSRFCookie's choice among the request's cookies versus the model (`ComposeCsrf.csrfLoad`: the first
+// cookie of that name that validates and decodes).  The harness says which payloads its own decoder decodes and finds
+// the chosen index with its own HMAC.
+func (e *testEnv) csrfPickTie(c *suiteCtx, cookieHeader, name string) {
+	req, err := http.NewRequest("GET", "http://"+tHost+"/", nil)
+	if err != nil {
+		return
+	}
+	if cookieHeader != "" {
+		req.Header.Set("Cookie", cookieHeader)
+	}
+	secret := e.opts.Cookie.Secret
+	var ns, vs, oks []string
+	type cand struct {
+		idx   int
+		state []byte
+	}
+	var cands []cand
+	for i, ck := range req.Cookies() {
+		ns, vs = append(ns, ck.Name), append(vs, ck.Value)
+		if ck.Name != name {
+			continue
+		}
+		parts := strings.Split(ck.Value, "|")
+		if len(parts) != 3 {
+			continue
+		}
+		if p, ok := indepDecodeCSRF(secret, ck.Value); ok {
+			if raw, derr := base64.URLEncoding.DecodeString(parts[0]); derr == nil {
+				oks = append(oks, string(raw))
+				if parts[2] == sgOwnSig(secret, name, parts[0], parts[1]) {
+					cands = append(cands, cand{i, p.State})
+				}
+			}
+		}
+	}
+	before := time.Now().UnixNano()
+	got, lerr := pkgcookies.LoadCSRFCookie(req, name, &e.opts.Cookie)
+	after := time.Now().UnixNano()
+	impl := "none"
+	if lerr == nil {
+		impl = "unidentified"
+		for _, cd := range cands {
+			if encryption.HashNonce(cd.state) == got.HashOAuthState() {
+				impl = fmt.Sprint(cd.idx)
+				break
+			}
+		}
+	}
+	c.emit(impl, "csrfpick", hx(secret), hx(name), fmt.Sprint(int64(e.opts.Cookie.Expire)), fmt.Sprint(before), fmt.Sprint(after), hxl(ns), hxl(vs), hxl(oks))
+	c.count("csrfpick:" + map[bool]string{true: "some", false: "none"}[lerr == nil])
 }
